@@ -15,7 +15,7 @@ COMPOSE = {
 CI_RELEASE = {"name": [None, 5], "short": [None, 5], "version": ["1.", "1..2", None, 5, "1a", ""], "type": ["bogus", None, "GA"],
               "is_layered": ["yes", None, 1], "internal": ["no", None]}
 CI_BP = {"name": [None, 5], "short": [None, 5], "version": ["1.", None, "1a"], "type": ["bogus", None, "GA", "Updates-Testing"]}
-CI_VARIANT = {"id": ["bad-id", "", None, 5, "a b"], "uid": ["Misaligned", None, 5], "name": ["", None, 5], "type": ["bogus", None],
+CI_VARIANT = {"id": ["bad-id", "", None, 5, "a b"], "uid": ["Misaligned", None, 5], "name": ["", None, 5], "type": ["bogus", None, "Addon", "layered_product"],
               "arches": [[]]}
 IMAGE = {
     "path": ["", None, 5], "mtime": ["1", None, 1.5], "size": [0, "1", None], "volume_id": ["", 5], "type": ["bogus", None, 5],
@@ -26,7 +26,7 @@ IMAGE = {
 TI_RELEASE = {"name": [None, 5], "short": [None, 5], "version": ["1.", "1a", None, 5], "is_layered": ["yes", None]}
 TI_BP = {"name": [None, 5], "short": [None, 5], "version": ["1.", "2b", None]}
 TI_TREE = {"arch": ["", None, 5], "build_timestamp": [0, None, "1"]}
-TI_VARIANT = {"id": ["a-b", None, 5], "type": ["bogus", None]}
+TI_VARIANT = {"id": ["a-b", None, 5], "type": ["bogus", None, "layered-product", "Variant"]}
 TI_MEDIA = {"discnum": ["1", 1.5], "totaldiscs": ["2"]}
 DISCINFO = {"timestamp": [0.0, None, 5], "description": ["", None, 5], "arch": ["", None, 5], "disc_numbers": [[], "ALL", None]}
 
